@@ -51,7 +51,7 @@ def sizeAndDuration : Leaves :=
   { names := ["UnitBytes", "Duration"], ok := fun _ v => ∃ i : Int, v = .int i ∧ inInt64 i }
 
 theorem sizeAndDuration_sound (env : Env) (fmt : Fmt) : LeafSound env fmt sizeAndDuration := by
-  intro n hn f v hok _
+  intro n hn f v _ hok _
   obtain ⟨i, hv, hi⟩ := hok
   subst hv
   simp only [sizeAndDuration, List.contains_cons, List.contains_nil, Bool.or_false, Bool.or_eq_true, beq_iff_eq] at hn
